@@ -92,6 +92,7 @@ var c12Gates = map[string]bool{"mutex.ownerRead": true, "mutex.locked": true, "m
 	"mutex.ownerCleared": true, "mutex.unlocked": true, "mutex.reentered": true, "verif.menter": true, "verif.mleaving": true}
 
 type c12Result struct {
+	Hung     bool
 	P        []interface{}
 	Schedule []string
 	Err      error
@@ -228,7 +229,10 @@ func runMutexScenario(progs [][]*mxBlock, sinks bool, controlled bool, ch sched.
 	}
 	verifhook.Set(func(string, ...interface{}) {})
 	s.OpenAll()
-	s.WaitDone(names, 2*time.Second)
+	if !hung {
+		s.WaitDone(names, 2*time.Second)
+	}
+	res.Hung = hung
 	if !hung {
 		for _, n := range mxNames {
 			v, _, _ := env.vs.GetValue("cnt" + n)
@@ -242,7 +246,7 @@ func runMutexScenario(progs [][]*mxBlock, sinks bool, controlled bool, ch sched.
 	}
 	if sinks {
 		done := make(chan struct{})
-		go func() { env.erp.Processor.ThreadPool().SetWorkerCount(0, true); close(done) }()
+		go func() { env.erp.Processor.ThreadPool().SetWorkerCount(0, false); close(done) }()
 		select {
 		case <-done:
 		case <-time.After(2 * time.Second):
@@ -286,17 +290,24 @@ func C12(r *ev.Run) {
 		mode  string
 	}
 	var runs []runInfo
+	hungRuns := 0
 	add := func(res *c12Result, mode string) bool {
 		if res.Err != nil {
 			r.Inconclusive(mode + ": " + res.Err.Error())
+			hungRuns = 1000
 			return false
 		}
 		trace = append(trace, map[string]interface{}{"ev": "reset", "t": 0, "n": "", "cnt": 0, "exp": 0, "hung": false})
 		runs = append(runs, runInfo{len(trace), res, mode})
 		trace = append(trace, res.P...)
 		r.Case(strings.Join(res.Programs, "|")+strings.Join(res.Schedule, ","), len(res.P) > 6)
-		return true
+		if res.Hung {
+			hungRuns++
+		}
+		// runs with permanently blocked threads leave goroutines behind: a handful is evidence enough
+		return hungRuns < 12
 	}
+	_ = hungRuns
 	nExp := pick(tier, 400, 3000)
 	for k := 0; k < nExp; k++ {
 		nt := 2 + rng.Intn(3)
@@ -309,7 +320,7 @@ func C12(r *ev.Run) {
 			ch = sched.NewPCT(rng, 150, 3)
 		}
 		if !add(runMutexScenario(progs, k%4 == 3, true, ch), "explore") {
-			return
+			break
 		}
 	}
 	nFree := pick(tier, 80, 500)
@@ -319,8 +330,8 @@ func C12(r *ev.Run) {
 		for t := 0; t < nt; t++ {
 			progs = append(progs, randomBlocks(rng, 0, 3, 3))
 		}
-		if !add(runMutexScenario(progs, k%2 == 1, false, nil), "free") {
-			return
+		if hungRuns >= 12 || !add(runMutexScenario(progs, k%2 == 1, false, nil), "free") {
+			break
 		}
 	}
 	bad, ok := validateTrace(r, "MutexP_Trace", "MutexP_Trace.cfg", trace, 10*time.Minute)
